@@ -403,7 +403,13 @@ def replay(prop_module, path):
         if check.replay is not None:
             check.replay(rec, args)
         else:
-            check.fn(rec, **args)
+            import inspect
+            params = inspect.signature(check.fn).parameters
+            if "c" in params and "c" not in args and not any(p.kind == p.VAR_KEYWORD for p in params.values()):
+                # bodies taking the whole case as one dictionary
+                check.fn(rec, {k: v for k, v in args.items() if k not in ("first_violating_commit", "dump", "u")})
+            else:
+                check.fn(rec, **args)
     except Violation as v:
         print("VIOLATION property=%s replay=%s" % (mod.PROPERTY, path))
         print("  signature: %s" % v.signature)
